@@ -7,19 +7,71 @@ from .cfg import CFG
 NS = 'embedded_pairing::bls12_381::'
 
 
+class ZCond:
+    """an atomic condition from which zero-ness of an object follows: on edge `zero_label` the object is the identity/zero,
+    on edge `nonzero_label` it is not (either may be None when the edge implies nothing)"""
+    def __init__(self, node, zero_label, nonzero_label):
+        self.node, self.id, self.zero_label, self.nonzero_label = node, node.id, zero_label, nonzero_label
+
+
+def _implied(e, value, out):
+    """atoms whose truth value follows from expression e having `value`"""
+    e = strip(e)
+    if not isinstance(e, dict):
+        return
+    if e.get('k') == 'un' and e.get('op') == '!':
+        _implied(e['e'], not value, out)
+    elif e.get('k') == 'bin' and e.get('op') == '&&':
+        if value:
+            _implied(e['lhs'], True, out)
+            _implied(e['rhs'], True, out)
+    elif e.get('k') == 'bin' and e.get('op') == '||':
+        if not value:
+            _implied(e['lhs'], False, out)
+            _implied(e['rhs'], False, out)
+    else:
+        o = pr.is_zero_test(e)
+        if o is not None:
+            out.append((o, value))
+
+
 def zero_conds(cfg):
-    """{object name: [cond node,...]} for atomic conditions testing zero-ness"""
+    """{object name: [ZCond,...]} - atomic zero tests, and tests of boolean locals assigned exactly once from a
+    combination of zero tests (e.g. `bool skip = a.is_zero() || b.is_zero(); if (!skip) ...`)"""
     out = {}
+    fn = cfg.fn
+    single = {}
+    writes = {}
+    for x in walk(fn['body']):
+        if x.get('k') == 'decl':
+            for v in x['vars']:
+                if (v.get('t') or {}).get('k') == 'bool' and v.get('init') is not None and v.get('id') is not None:
+                    single[v['id']] = v['init']
+        if x.get('k') == 'assign' and strip(x['lhs']).get('k') == 'ref':
+            writes[strip(x['lhs']).get('id')] = writes.get(strip(x['lhs']).get('id'), 0) + 1
     for n in cfg.cond_nodes():
         o = pr.is_zero_test(n.ast)
         if o is not None:
-            out.setdefault(o, []).append(n)
+            out.setdefault(o, []).append(ZCond(n, True, False))
+            continue
+        e = strip(n.ast)
+        if e.get('k') == 'ref' and e.get('rk') == 'local' and e.get('id') in single and not writes.get(e['id']):
+            for lab in (True, False):
+                atoms = []
+                _implied(single[e['id']], lab, atoms)
+                for (obj, val) in atoms:
+                    out.setdefault(obj, []).append(ZCond(n, lab if val else None, lab if not val else None))
     return out
 
 
 def guarded_by_false(cfg, conds, target):
-    """target is reachable only through the False edge of one of `conds` (each of them individually suffices)"""
-    return any(cfg.must_pass_edge(c.id, False, target) for c in conds)
+    """target is reachable only through an edge on which the object is known to be non-zero"""
+    return any(c.nonzero_label is not None and cfg.must_pass_edge(c.id, c.nonzero_label, target) for c in conds)
+
+
+def on_zero_edge(cfg, conds, target):
+    """target is reachable only through an edge on which the object is known to be zero"""
+    return any(c.zero_label is not None and cfg.must_pass_edge(c.id, c.zero_label, target) for c in conds)
 
 
 # ---------------------------------------------------------------- G1 (C01, C08)
@@ -112,11 +164,11 @@ def g4_projective_add(ctx, cfg_name, prog, rule='R-GUARD/G4'):
         why = []
         # (i) b zero -> copy a
         cb = zc.get(pb, [])
-        if not (cb and exits['copy_a'] and all(any(g.must_pass_edge(c.id, True, e.id) for c in cb) for e in exits['copy_a'])):
+        if not (cb and exits['copy_a'] and all(on_zero_edge(g, cb, e.id) for e in exits['copy_a'])):
             ok = False
             why.append('no `%s.is_zero()` => copy of %s exit' % (b, a))
         ca = zc.get(pa, [])
-        if not (ca and exits['lift_b'] and all(any(g.must_pass_edge(c.id, True, e.id) for c in ca) for e in exits['lift_b'])):
+        if not (ca and exits['lift_b'] and all(on_zero_edge(g, ca, e.id) for e in exits['lift_b'])):
             ok = False
             why.append('no `%s.is_zero()` => copy/lift of %s exit' % (a, b))
         for n in lift_const_z:
@@ -169,7 +221,7 @@ def g5_conversions(ctx, cfg_name, prog, rule='R-GUARD/G5'):
                                                       and any('::zero' in pr.canon(x) for x in c['args']) for c in pr.calls(n.ast))]
         conds = zc.get(pa, [])
         ok = bool(inv) and bool(conds) and all(guarded_by_false(g, conds, n.id) for n in inv) and \
-            bool(zero_exit) and all(any(g.must_pass_edge(c.id, True, e.id) for c in conds) for e in zero_exit) and \
+            bool(zero_exit) and all(on_zero_edge(g, conds, e.id) for e in zero_exit) and \
             all(not any(n.id in g.reachable(start=e.id) for n in inv) for e in zero_exit)
         ctx.ob(rule, ok, 'G5|from_projective|' + f['qn'].split('Affine<')[-1][:30], loc_str(f),
                '%s: the z-inversion must be on the non-identity edge and the identity must map to Affine::zero '
@@ -187,7 +239,7 @@ def g5_conversions(ctx, cfg_name, prog, rule='R-GUARD/G5'):
         zero_exit = [n for n in g.stmt_nodes() if any(c['name'] == 'copy' and c.get('this') is not None and pr.canon(c['this']) == 'this'
                                                       and any('::zero' in pr.canon(x) for x in c['args']) for c in pr.calls(n.ast))]
         ok = bool(conds) and bool(lift) and all(guarded_by_false(g, conds, n.id) for n in lift) and bool(zero_exit) and \
-            all(any(g.must_pass_edge(c.id, True, e.id) for c in conds) for e in zero_exit)
+            all(on_zero_edge(g, conds, e.id) for e in zero_exit)
         ctx.ob(rule, ok, 'G5|from_affine|' + f['qn'].split('Projective<')[-1][:30], loc_str(f),
                '%s: an affine point at infinity must become Projective::zero (z = 0), a finite one (x, y, 1)' % f['qn'],
                cfg=cfg_name, sample=dict(config=cfg_name, function=f['qn'][:100]))
@@ -210,7 +262,7 @@ def g237_field_zero_cases(ctx, cfg_name, prog, rule='R-GUARD'):
                    f['qn'], f['params'][1]['name']), cfg=cfg_name, sample=dict(config=cfg_name, function=f['qn'][:100], loops=len(loops)))
         # and the zero edge produces zero
         setz = [n for n in g.stmt_nodes() if any(c['name'] == 'set_zero' for c in pr.calls(n.ast))]
-        ok2 = bool(conds) and any(any(g.must_pass_edge(c.id, True, n.id) for c in conds) for n in setz)
+        ok2 = bool(conds) and any(on_zero_edge(g, conds, n.id) for n in setz)
         ctx.ob(rule + '/G2', ok2, 'G2z|fp_inverse|' + f['qn'][-40:], loc_str(f),
                '%s: inverting zero must yield zero (set_zero on the zero edge)' % f['qn'], cfg=cfg_name)
     # G3: FpBase::negate
